@@ -153,7 +153,7 @@ func init() {
 				Bound: "timestamp 31 symbolic bits (so 0xFFFFFE/0xFFFFFF/0x1000000/2^31-1 are decided by the solver), payload length 24 symbolic bits (65535/65536/2^24-1 included), type 8 bits, stream id 32 bits, chunk stream 2..8"},
 			{Pkg: "rtmp", Func: "HarnessC01_Session", Labels: []string{"session"},
 				Bound:  "1-2 messages (first payload 1-5 symbolic bytes, second 1 or 3), each optionally preceded by WritePacket(SetChunkSize) with the size symbolic in [1, 2^31-1]; messages built by NewStreamMessage or NewMessage; type/stream id/timestamp symbolic",
-				BoundT: "1 message of 1-10, 2 messages of 1-6 or 3 messages of 1-2 symbolic payload bytes; every split offset of short streams"},
+				BoundT: "1 message of 1-10, 2 messages of 1-4 or 3 messages of 1 symbolic payload byte; every split offset of short streams"},
 			{Pkg: "rtmp", Func: "HarnessC01_Duplex", Labels: []string{"duplex"}, Bound: "two endpoints that both read and write: each optionally announces a chunk size (any value in [1, 2^31-1]) and writes a 3-byte message, reads the other's, writes a 2-byte message, reads the other's"},
 			{Pkg: "rtmp", Func: "HarnessC01_Chunked", Labels: []string{"chunked"},
 				Bound:  "one message of 127/128/129/257 bytes (3 symbolic positions, symbolic type/stream id/timestamp) with the default chunk size or an announced one in {1,127,128,129,4096}, followed by a 2-byte message",
@@ -284,7 +284,7 @@ func init() {
 		Harnesses: []harnessSpec{
 			{Pkg: "websocket", Func: "HarnessC13_RoundTrip", TimeFixed: true, Labels: []string{"roundtrip"},
 				Bound:  "client or server; APIs {WriteMessage, NextWriter+2 Writes with every split, WriteString, ReadFrom from readers with/without (n,EOF) and 1-2 byte chunks, prepared message}; one message of 0..6 symbolic bytes with write buffer 1/4/16; one message of 125/126/127 bytes (3 symbolic positions) with write buffer 16/4096; two messages of 0..2 bytes; one message of 65535/65536 bytes in a single frame (write buffer 70000, WriteMessage and NextWriter+Writes); mask key symbolic",
-				BoundT: "messages of 0..20 bytes; boundary sizes 125,126,127,4095,4096,4097,65535,65536; sessions of 2-3 messages"},
+				BoundT: "messages of 0..9 bytes; boundary sizes 125,126,127,4095,4096,4097,65535,65536; sessions of 2 messages through 5 APIs; reader fed whole or in 3-byte pieces"},
 			{Pkg: "websocket", Func: "HarnessC13_Compressed", TimeFixed: true, Steps: 400000000, Labels: []string{"compressed"}, Bound: "per-message deflate, writer side: client or server; level BestSpeed/default (concrete pseudo-random payload) or 0 = stored blocks (symbolic payload up to 40 bytes); message of 0/1/40/100 bytes; write buffer 8/32 (1..15 frames); WriteMessage or NextWriter+2 Writes; frames parsed independently, RSV1 on the first frame only, payloads + 00 00 ff ff inflated by compress/flate give the message"},
 			{Pkg: "websocket", Func: "HarnessC13_CompressedRead", TimeFixed: true, Steps: 400000000, Labels: []string{"compressed-read"}, Bound: "per-message deflate, reader side: a compress/flate sync-flushed stream without its 00 00 ff ff tail, level BestSpeed (concrete payload) or stored blocks (symbolic payload), message of 0/1/30 bytes, split over 1-3 frames at forked offsets (thorough: every offset), whole or 1-byte reads"},
 			{Pkg: "websocket", Func: "HarnessC13_Mask", SymAddr: true, Labels: []string{"mask"}, Bound: "maskBytes (real implementation incl. the unsafe word loop) vs the byte-wise RFC 6455 definition: buffer lengths {0,1,7,15,16,17,23,24,25,31,33} with all bytes symbolic, key symbolic, start position 0..3, buffer address symbolic (every alignment)", BoundT: "lengths up to 100"},
